@@ -171,6 +171,76 @@ def explore_chdir(item):
     return out
 
 
+def explore_symlink(item):
+    """the export directory is reached through a directory symlink (`lnk -> real`): the files of every exported type end up in the
+    real directory, whatever the order of the calls and whether the target file existed before"""
+    cfg, (e1, t1), (e2, t2) = item
+    ex = Explorer(time_budget=G.get('time_budget'))
+    tdefs = universe()
+    out = {'violations': [], 'samples': [], 'obligations': 0, 'discharged': 0, 'models': set(), 'inconclusive': []}
+    real = CWD + '/real'
+
+    def harness(ctx):
+        m = W.machine(ctx, cfg, CWD, 'lnk')
+        W.install(m, tdefs)
+        fs = m.env['fs']
+        fs.mkdirs(real)
+        fs.nodes[CWD + '/lnk'] = ['link', real]
+        results, exported = [], {}
+        for e, t in ((e1, t1), (e2, t2)):
+            r = W.call_entry(m, ENTRIES[e], t, 'lnk')
+            results.append(r)
+            if r is None:
+                for j in ([t] if ENTRIES[e] == 'export' else W.closure(tdefs, t)):
+                    exported[j] = real
+        out['models'].update(m.calls)
+        return results, exported, W.files_of(fs)
+    try:
+        for pc, (results, exported, files) in ex.run(harness):
+            out['obligations'] += 1
+            why = None
+            for (e, t), r in zip(((e1, t1), (e2, t2)), results):
+                if r is not None and r[0] == 'panic':
+                    why = f'{ENTRIES[e]}({tdefs[t].name}) panics: {r[1]}'
+                elif (tdefs[t].out is None) != (r is not None):
+                    why = f'{ENTRIES[e]}({tdefs[t].name}) -> {r}'
+            if why is None:
+                want = W.expected_fs(CWD, tdefs, exported, cfg == 'esm')
+                if dict(files) != want:
+                    diff = sorted(set(files) ^ set(want)) or [f for f in want if files.get(f) != want[f]]
+                    why = f'export directory behind a symlink: the directory differs from the canonical contents for {sorted(tdefs[i].name for i in exported)}: {diff[:4]}'
+            if why is not None:
+                out['violations'].append({'cfg': cfg, 'env': 'lnk', 'to': 'lnk', 'init': 'empty', 'symlink': True, 'why': why,
+                                          'steps': [(ENTRIES[e1], t1, 'lnk'), (ENTRIES[e2], t2, 'lnk')], 'engine_files': files})
+            else:
+                out['discharged'] += 1
+    except Unsupported as e:
+        out['inconclusive'].append(f'symlink {item}: {e}')
+    out.update(paths=ex.paths, nontrivial=ex.nontrivial, queries=ex.queries, solver_s=ex.solver_s)
+    out['models'] = sorted(out['models'])
+    return out
+
+
+def native_check_symlink(v):
+    tdefs = universe()
+    steps = [(e, t, d if e == 'export_all_to' else None) for e, t, d in v['steps']]
+    results, files = W.native_history(v['cfg'], None, tdefs, steps, 'lnk', [(0, 'mkdir', 'real'), (0, 'symlink', 'real', 'lnk')])
+    exported, why = {}, None
+    for (entry, t, d), r in zip(steps, results):
+        if r[0] == 'panic':
+            why = f'{entry}({tdefs[t].name}) panics natively: {r[1]}'
+        elif r[0] == 'ok' and tdefs[t].out is not None:
+            for j in ([t] if entry == 'export' else W.closure(tdefs, t)):
+                exported[j] = CWD + '/real'
+        elif (r[0] == 'ok') != (tdefs[t].out is not None):
+            why = f'{entry}({tdefs[t].name}) -> {r} natively'
+    want = {f[len(CWD) + 1:]: c for f, c in W.expected_fs(CWD, tdefs, exported, v['cfg'] == 'esm').items()}
+    got = {f: c for f, c in files.items() if f.startswith('real/')}
+    if why is None and got != want:
+        why = 'natively the real directory differs from the canonical contents: ' + str(sorted(set(got) ^ set(want))[:4] or [f for f in want if got.get(f) != want[f]][:3])
+    return why is not None, {'why': why, 'results': results, 'files': files}
+
+
 def native_check_chdir(v):
     tdefs = universe()
     steps = [(e, t, d if e == 'export_all_to' else None) for e, t, d in v['steps']]
@@ -193,6 +263,8 @@ def native_check_chdir(v):
 def native_check(v):
     if v.get('chdir'):
         return native_check_chdir(v)
+    if v.get('symlink'):
+        return native_check_symlink(v)
     """replay the history natively; returns (is_violation, details)"""
     tdefs = universe()
     import tempfile
@@ -266,14 +338,16 @@ def main():
                   'history_length': sorted({i[1] for i in items}), 'entry_points': ENTRIES,
                   'TS_RS_EXPORT_DIR spellings of <cwd>/bindings': ENV_SPELLINGS, 'export_all_to spellings': TO_SPELLINGS,
                   'initial_directory': ['empty', 'stale files at the targets (+ unrelated file)', 'previous run\'s output'], 'cells': len(items)}
-    rep.outside += ['symlinks', 'more than one change of the working directory', 'histories longer than the bound',
+    rep.outside += ['symlinks other than a directory link naming the export directory (file links, links inside the tree, `..` behind a link)', 'more than one change of the working directory', 'histories longer than the bound',
                     'other universes (more types per file: C05)']
     rep.assumptions += ['file-system model: POSIX semantics without symlinks, validated against the real file system through the native helper',
                         'type names are concrete in this check (the registry and file names are keyed by them)']
     validate(rep, 6 if quick else 40)
     chdir_items = [('plain', a, b, to) for a in ((0, 0), (1, 2), (2, 2)) for b in ((0, 1), (1, 2), (2, 0)) for to in (['out'] if quick else ['out', './o/../out/'])]
     rep.bounds['change_of_working_directory'] = f'{len(chdir_items)} two-call histories with a chdir in between, default directory and a relative export_all_to argument'
-    results = par.pmap(explore, items) + par.pmap(explore_chdir, chdir_items)
+    symlink_items = [('plain', a, b) for a in ((0, 0), (0, 1), (1, 2), (2, 2)) for b in ((0, 1), (0, 0), (2, 1), (1, 2))]
+    rep.bounds['export_directory_behind_a_symlink'] = f'{len(symlink_items)} two-call histories with TS_RS_EXPORT_DIR / the export_all_to argument naming a directory symlink'
+    results = par.pmap(explore, items) + par.pmap(explore_chdir, chdir_items) + par.pmap(explore_symlink, symlink_items)
     cand = []
     for r in results:
         cand += r.pop('violations', [])
